@@ -14,7 +14,7 @@ class HelloRoute(HttpWebServerBasePlugin):
         return [(httpProtocolTypes.HTTP, r'/hello')]
 
     def handle_request(self, request):
-        self.client.queue(okResponse(b'hello:' + (request.path or b''), headers={b'X-Route': b'hello'}))
+        self.client.queue(okResponse(b'hello:' + (request.path or b''), headers={b'X-Route': b'hello', b'X-Method': request.method or b'-'}))
 
 
 class ByeRoute(HttpWebServerBasePlugin):
@@ -25,7 +25,7 @@ class ByeRoute(HttpWebServerBasePlugin):
 
     def handle_request(self, request):
         if (request.path or b'').startswith(b'/bye'):
-            self.client.queue(okResponse(b'bye:' + (request.path or b''), headers={b'X-Route': b'bye'}))
+            self.client.queue(okResponse(b'bye:' + (request.path or b''), headers={b'X-Route': b'bye', b'X-Method': request.method or b'-'}))
 
 
 class WsRoute(HttpWebServerBasePlugin):
